@@ -476,6 +476,10 @@ func runC02(t *testing.T, c Case) (res Result) {
 	} else {
 		for j := 0; j <= len(log); j++ {
 			cuts = append(cuts, cut{j, -1})
+			if j > 0 && (log[j-1].Kind == simdisk.OpRename || log[j-1].Kind == simdisk.OpRemove || log[j-1].Kind == simdisk.OpCreate || log[j-1].Kind == simdisk.OpClose) {
+				// the same moment with every byte that nobody fsynced gone (names persist, unsynced data does not)
+				cuts = append(cuts, cut{j, simdisk.LoseUnsynced})
+			}
 			if j < len(log) && log[j].Kind == simdisk.OpWrite {
 				n := len(log[j].Data)
 				if n <= 128 && thorough {
@@ -534,6 +538,9 @@ func (s *stRun) checkCut(log []simdisk.LogOp, j, torn int, res *Result, fpSet ma
 	// synced by then (a Sync/Close that returned without error) must be in it. An engine that returns from Sync
 	// without having fsynced is caught here: its barrier lies before any fsync that would cover the data.
 	kCrash := nextFsync(log, j)
+	if torn == simdisk.LoseUnsynced {
+		kCrash = j // this image is the crash at exactly j with the unsynced data gone
+	}
 	for _, du := range s.durs {
 		if du.logAt <= kCrash {
 			nDur = du.n
@@ -559,6 +566,9 @@ func (s *stRun) checkCut(log []simdisk.LogOp, j, torn int, res *Result, fpSet ma
 		phase = "torn_" + tornPhase(inflight)
 	} else if j > lastSyncLog {
 		phase = "after_" + tornPhase(&log[j-1])
+	}
+	if torn == simdisk.LoseUnsynced {
+		phase += "_unsynced_data_lost"
 	}
 	if inComp {
 		phase = "compaction_" + phase
